@@ -8,9 +8,11 @@ From GA.Spec Require Import Local EDNAFULL.
 From GA.Model Require Import SW.
 Local Open Scope Z_scope.
 
-(* all scores are passed multiplied by 2 *)
+(* all scores are passed multiplied by c_scale: 2 for the dyadic schemes (float arithmetic is then exact and the code
+   model predicts every observable), 20 for schemes with one decimal such as -1.1 / -0.3 (the code's floats are rounded:
+   ties may be broken differently than in exact arithmetic, so only the specification judges those cases) *)
 Record case := mk {
-  c_atg : bool; c_usemat : bool; c_match : Z; c_mismatch : Z; c_open : Z; c_extend : Z;
+  c_scale : Z; c_atg : bool; c_usemat : bool; c_match : Z; c_mismatch : Z; c_open : Z; c_extend : Z;
   c_s1 : bs; c_s2 : bs;
   c_err : bool; c_score : Z; c_r1 : bs; c_r2 : bs;
   c_st1 : Z; c_st2 : Z; c_en1 : Z; c_en2 : Z;
@@ -21,6 +23,7 @@ Record case := mk {
 Definition scheme_of (c : case) : scheme := mkscheme (c_usemat c) (c_match c) (c_mismatch c) (c_open c) (c_extend c).
 
 Definition model_ok (c : case) : bool :=
+  if negb (Z.eqb (c_scale c) 2) then true else
   match align_pair (c_atg c) (scheme_of c) (unbs (c_s1 c)) (unbs (c_s2 c)) with
   | None => c_err c
   | Some r =>
@@ -40,10 +43,10 @@ Definition spec_sub (c : case) : byte -> byte -> Z :=
       (* nucleotides: the published EDNAFULL table (Spec/EDNAFULL.v), independent of the tables of the code;
          letters outside it (U, X) and proteins: the regenerated tables *)
       match (if Z.eqb which 1 then ednafull (to_upper a) (to_upper b) else None) with
-      | Some y => 2 * y
+      | Some y => c_scale c * y
       | None =>
           match char_pos which a, char_pos which b with
-          | Some i, Some j => sub_entry which i j
+          | Some i, Some j => (c_scale c / 2) * sub_entry which i j
           | _, _ => NEG
           end
       end
